@@ -14,15 +14,36 @@ class Namer:
         self.maxn = 6
         self.deflook = False    # explicit names that look like library defaults: only for histories that are never rebuilt call by call
 
+    # names that look like the library's defaults (c<k>, x<k>) for items still to come: a later NULL-named item must then be given
+    # another name.  Only while no default-named item exists in that table (otherwise the name might be taken without the
+    # model knowing), and only in histories that are never rebuilt call by call.
+    none_r = False
+    none_c = False
+    cnt_r = 0
+    cnt_c = 0
+    taken = ()
+
     def row(self, rnd, p_none=0.15):
         if rnd.random() < p_none:
+            self.none_r = True
             return None
+        if self.deflook and not self.none_r and rnd.random() < 0.1:
+            cand = "c%d" % (self.cnt_r + rnd.randint(1, 4))
+            if cand not in self.taken:
+                self.taken.add(cand)
+                return cand
         self.r += 1
         return "RW%d" % self.r
 
     def col(self, rnd, p_none=0.15):
         if rnd.random() < p_none:
+            self.none_c = True
             return None
+        if self.deflook and not self.none_c and rnd.random() < 0.1:
+            cand = "x%d" % (self.cnt_c + rnd.randint(1, 4))
+            if cand not in self.taken:
+                self.taken.add(cand)
+                return cand
         self.c += 1
         return "CL%d" % self.c
 
@@ -101,6 +122,11 @@ def rnd_edit(rnd, m, nm, grow=0.5, kinds=None):
         if t <= 0:
             break
     nr, nc = m.nrows, m.ncols
+    nm.cnt_r, nm.cnt_c = nr, nc
+    if nm.deflook:
+        nm.taken = set(x.name for x in m.cols) | set(x.name for x in m.rows)
+        nm.none_r = nm.none_r or any(x.name is None for x in m.rows)
+        nm.none_c = nm.none_c or any(x.name is None for x in m.cols)
     if k == "new_col":
         lo, up = bounds(rnd)
         return ("new_col", val(rnd), lo, up, nm.col(rnd))
